@@ -73,8 +73,9 @@ def run_prg(ctx, c):
         data = expand(c["seed"] + "%02x" % i, n)
         if cmd == "restart":
             a2 = expand(c["seed"] + "c%x" % i, 4 * (n % 16))
-            k2len = 0 if (n % 2 == 0 or not keyed) else max(l // 8, 4 * (n % 16))
+            k2len = 0 if n % 2 == 0 else max(l // 8, 4 * (n % 16))     # a key moves a keyless automaton into the keyed mode (bash.h, remark of bashPrgRestart)
             k2 = expand(c["seed"] + "d%x" % i, k2len)
+            keyed = keyed or k2len > 0
             x.call("bashPrgRestart", x.buf(a2), len(a2), x.buf(k2), len(k2), S, ret="v")
             M.restart(a2, k2)
         elif cmd == "ratchet":
@@ -265,6 +266,13 @@ S_BOTP = st.fixed_dictionaries({
 
 
 def tests(tier):
+    # step-wise editions with generated fragmentations / interleavings (oracle: the one-shot functions, props/c10_more.py; theirs: the models here)
+    from props import c10_more
+    chunked = [Test("chunked_" + t.name, t.strategy, t.run, {k: max(200, v // 4) for k, v in t.n.items()}, CFG) for t in c10_more.tests(tier)]
+    return own_tests(tier) + chunked
+
+
+def own_tests(tier):
     return [
         Test("bash", S_BASH, run_bash, {"quick": 5000, "thorough": 50000}, CFG),
         Test("prg", S_PRG, run_prg, {"quick": 5000, "thorough": 50000}, CFG),
